@@ -151,7 +151,11 @@ retry:
 		path := filepath.Join(VerifDir(), "replays", fmt.Sprintf("%s-%d.json", prop, r.Seed))
 		full := filepath.Join(VerifDir(), "replays", fmt.Sprintf("%s-%d.full.json", prop, r.Seed))
 		_ = WriteReplay(full, rf)
-		minC, minRun, minV, n := Minimise(s, prop, r.Seed, tier, r.Choices(), b.viol.Inv, Known, 1500, 120*time.Second)
+		budget := 120 * time.Second
+		if os.Getenv("OPSIM_NOMIN") != "" {
+			budget = 0 // bulk re-evaluation of seeded changes: report the unminimised replay
+		}
+		minC, minRun, minV, n := Minimise(s, prop, r.Seed, tier, r.Choices(), b.viol.Inv, Known, 1500, budget)
 		reportPath := full
 		if minRun != nil {
 			mrf := &ReplayFile{Property: prop, Seed: r.Seed, Tier: tier, Invariant: minV.Inv, Key: minV.Key, Message: minV.Msg,
